@@ -277,7 +277,7 @@ package ratelimit
 // ---- request path ---------------------------------------------------------------------------
 
 //@ func (*TokenLimiter).ServeHTTP
-//@   props C13 C14 C20
+//@   props C03 C13 C14 C20
 //@   requires req != nil && ratesOK(tl.defaultRates)
 //@   modifies everything
 //@   ensures one_outcome: calls(tl.next.ServeHTTP) + calls(tl.errHandler.ServeHTTP) == 1
